@@ -589,8 +589,13 @@ def scenario_blocked_transfers(r):
         main += ["smove 2 1", "sempty 3 %s" % rk, "smasg 3 2", "scopy 4 3"]
         d = 4
     main += ["sq %d" % d, "sq 1", "scall %d 5 1" % d, "scall 1 6 1"]
-    main += ["gnew 0 %s -1 0" % rk, "gconn 0 %d 1 %d %d" % (d, r.randint(0, 1), r.randint(0, 1)), "gemit 0 3 1", "cq 1", "gq 0",
-             "cblock 1 0", "gemit 0 4 1", "sq %d" % d, "gdel 0", "cdel 1"]
+    main += ["gnew 0 %s -1 0" % rk, "gconn 0 %d 1 %d %d" % (d, r.randint(0, 1), r.randint(0, 1)), "gemit 0 3 1", "cq 1", "gq 0"]
+    if r.random() < 0.5:
+        main += ["cblock 1 0", "gemit 0 4 1"]
+    else:
+        # the same through a scoped_connection: block(true), block(false) and unblock() each return the old state and set the new one
+        main += ["knew 1 1", "kblock 1 1", "kq 1", "gemit 0 4 1", "kblock 1 0", "kq 1", "gemit 0 5 1", "kblock 1 %d" % r.randint(0, 1), "cq 1", "krel 1 9", "cdel 9", "kdel 1"]
+    main += ["sq %d" % d, "gdel 0", "cdel 1"]
     main += ["sdel %d" % k for k in range(1, d + 1)]
     return " ".join(("S 1 a 1 S 2 a 2 M " + " ".join(main)).split())
 
